@@ -186,3 +186,876 @@ def generate(ck) -> bool:
         return False
     ck.gen("C09Gen", "\n".join(out))
     return True
+
+
+# --------------------------------------------------------------------------- cooperative runtime
+# Real OS threads, but exactly one holds the baton at any time; every Lock/Condition/submit/result/
+# as_completed/shutdown call, every callback and every tensor write is a scheduling point.  The chooser
+# decides which enabled thread runs next, so a run is a deterministic function of (config, choices).
+
+import collections
+import linecache
+import sys
+import threading as _real_threading
+
+
+class _CoThread:
+    def __init__(self, sched, name, fn, role, pool=None, widx=None):
+        self.sched, self.name, self.fn, self.role, self.pool, self.widx = sched, name, fn, role, pool, widx
+        self.go = _real_threading.Semaphore(0)
+        self.pred = None          # enabledness predicate of the pending scheduling point
+        self.desc = "start"
+        self.finished = False
+        self.npoints = 0          # scheduling points passed since the current task started (state key)
+        self.task = None          # serial pools: task currently run by this thread
+        self.notified = False
+        self.cond_kind = None
+        self.cond_before = (0, False)
+        self.exc = None
+        self.thread = _real_threading.Thread(target=self._run, name=name, daemon=True)
+
+    def _run(self):
+        self.go.acquire()
+        try:
+            self.fn()
+        except BaseException as e:  # noqa: BLE001  (recorded; the owner decides what it means)
+            self.exc = e
+        finally:
+            self.finished = True
+            self.sched._dispatch(self)
+
+
+class Sched:
+    """chooser(enabled: list[_CoThread], sched) -> _CoThread"""
+
+    def __init__(self, chooser, max_steps=20000):
+        self.chooser = chooser
+        self.max_steps = max_steps
+        self.threads: list[_CoThread] = []
+        self.cur: _CoThread | None = None
+        self.done = _real_threading.Event()
+        self.outcome = None            # "finished" | ("deadlock", [...]) | ("step-bound",)
+        self.steps: list[list] = []    # model-level events: [thread, code, task, obs]
+        self.choices: list[int] = []   # index of the chosen thread among the enabled ones, per decision
+        self.keys: list = []           # state key at each decision (exhaustive exploration)
+        self.enabled_counts: list[int] = []
+        self.nsteps = 0
+        self.observe = lambda: (0, False)
+        self.keyfn = None
+        self.dead = False
+        self.pickfn = None
+        self.picks: list[int] = []
+
+    # -- threads
+    def spawn(self, name, fn, role, pool=None, widx=None, pred=None):
+        t = _CoThread(self, name, fn, role, pool, widx)
+        t.pred = pred
+        self.threads.append(t)
+        t.thread.start()
+        return t
+
+    def start(self):
+        self._dispatch(None)
+
+    def point(self, desc, pred=None):
+        me = self.cur
+        me.pred, me.desc = pred, desc
+        me.npoints += 1
+        self._dispatch(me)
+        me.pred = None
+
+    def _seal(self):
+        obs = None
+        for st in reversed(self.steps):
+            if st[3] is not None:
+                break
+            if obs is None:
+                obs = self.observe()
+            st[3] = obs
+
+    def _dispatch(self, me):
+        self._seal()
+        if self.dead:
+            _real_threading.Event().wait()      # run abandoned: park forever (daemon thread)
+        alive = [t for t in self.threads if not t.finished]
+        if not alive:
+            self.outcome = "finished"
+            self.done.set()
+            return
+        enabled = [t for t in alive if t.pred is None or t.pred()]
+        self.nsteps += 1
+        if not enabled or self.nsteps > self.max_steps:
+            self.outcome = (("deadlock", [f"{t.name}@{t.desc}" for t in alive]) if not enabled
+                            else ("step-bound", self.max_steps))
+            self.dead = True
+            self.done.set()
+            _real_threading.Event().wait()
+        if self.keyfn is not None:
+            self.keys.append(self.keyfn(self))
+        self.enabled_counts.append(len(enabled))
+        nxt = self.chooser(enabled, self)
+        self.choices.append(enabled.index(nxt))
+        self.cur = nxt
+        if nxt is me:
+            return
+        nxt.go.release()
+        if me is not None and not me.finished:
+            me.go.acquire()
+
+    def emit(self, thread, code, task=None):
+        self.steps.append([thread, code, task, None])
+
+    def pick(self, n):
+        """a nondeterministic choice that is not a thread switch (which completed future as_completed yields)"""
+        i = self.pickfn(n) if (n > 1 and self.pickfn is not None) else 0
+        self.picks.append(i)
+        return i
+
+
+class _Abort(BaseException):
+    pass
+
+
+def _creation_site():
+    """(function name, source line) of the code under test that called a fake constructor."""
+    f = sys._getframe(2)
+    while f is not None and os.path.basename(f.f_code.co_filename) != "external_data.py":
+        f = f.f_back
+    if f is None:
+        return "?", ""
+    return f.f_code.co_name, linecache.getline(f.f_code.co_filename, f.f_lineno)
+
+
+class CoLock:
+    def __init__(self, rt):
+        self.rt = rt
+        self.owner = None
+        fn, line = _creation_site()
+        if fn == "_write_parallel" and "callback_lock" in line:
+            self.role = "cbin"
+        elif fn == "_write_parallel" and "files_lock" in line:
+            self.role = "files"
+        elif fn == "_write_external_tensors" and "callback_lock" in line:
+            self.role = "cbout"
+        elif fn in ("_create_tensor_write_locks", "<dictcomp>"):
+            self.role = "tensor"
+        else:
+            self.role = "other:" + fn
+        self.obj = None
+        rt.locks.append(self)
+
+    def acquire(self, blocking=True, timeout=-1):
+        rt, s = self.rt, self.rt.sched
+        s.point(f"lock:{self.role}", pred=lambda: self.owner is None)
+        me = s.cur
+        self.owner = me
+        rt.on_lock(me, self)
+        return True
+
+    def release(self, exc=False):
+        rt, s = self.rt, self.rt.sched
+        s.point(f"unlock:{self.role}")
+        self.owner = None
+        rt.on_unlock(s.cur, self, exc)
+
+    def __enter__(self):
+        self.acquire()
+        return self
+
+    def __exit__(self, et, ev, tb):
+        self.release(exc=et is not None)
+        return False
+
+    def locked(self):
+        return self.owner is not None
+
+
+class CoCondition:
+    """threading.Condition with an explicit wait set.  Entering the with-block is the scheduling point;
+    the body up to wait()/exit runs atomically (no other thread holds the baton)."""
+
+    def __init__(self, rt):
+        self.rt = rt
+        self.waiters: list[_CoThread] = []
+        self.holder = None
+        self.kind = None
+        rt.conds.append(self)
+
+    def __enter__(self):
+        s = self.rt.sched
+        kind = sys._getframe(1).f_code.co_name
+        s.point(f"cond:{kind}", pred=lambda: self.holder is None)
+        self.holder = s.cur
+        s.cur.cond_kind = kind
+        return self
+
+    def __exit__(self, et, ev, tb):
+        me = self.holder
+        self.holder = None
+        self.rt.on_cond_exit(me, me.cond_kind, me.cond_before, et is not None)
+        return False
+
+    def wait(self, timeout=None):
+        s = self.rt.sched
+        me = s.cur
+        self.rt.on_cond_sleep(me)
+        me.notified = False
+        self.waiters.append(me)
+        self.holder = None
+        s.point("cond:wait", pred=lambda: me.notified and self.holder is None)
+        self.holder = me
+        return True
+
+    def wait_for(self, predicate, timeout=None):
+        me = self.rt.sched.cur
+        me.cond_before = self.rt.observe()
+        r = predicate()
+        while not r:
+            self.wait()
+            me.cond_before = self.rt.observe()
+            r = predicate()
+        return r
+
+    def notify(self, n=1):
+        for t in self.waiters[:n]:
+            t.notified = True
+        del self.waiters[:n]
+
+    def notify_all(self):
+        self.notify(len(self.waiters))
+
+
+class CoFuture:
+    def __init__(self, rt, idx):
+        self.rt = rt
+        self.idx = idx
+        self.state = "pending"    # pending | running | ok | raised | cancelled
+        self.value = None
+        self.exc = None
+
+    def done(self):
+        return self.state in ("ok", "raised", "cancelled")
+
+    def cancelled(self):
+        return self.state == "cancelled"
+
+    def result(self, timeout=None):
+        if not self.done():
+            self.rt.sched.point("future:result", pred=self.done)
+        return self._get()
+
+    def exception(self, timeout=None):
+        if not self.done():
+            self.rt.sched.point("future:exception", pred=self.done)
+        return self.exc
+
+    def _get(self):
+        if self.state == "cancelled":
+            import concurrent.futures as cf
+            raise cf.CancelledError()
+        if self.state == "raised":
+            raise self.exc
+        return self.value
+
+
+class CoExecutor:
+    def __init__(self, rt, max_workers=None):
+        self.rt = rt
+        s = rt.sched
+        fn, _ = _creation_site()
+        self.level = "outer" if fn == "_write_external_tensors" else "inner"
+        self.k = max_workers
+        self.queue: collections.deque = collections.deque()
+        self.futures: list[CoFuture] = []
+        self.shutdown_flag = False
+        self.workers: list[_CoThread] = []
+        self.busy = 0
+        me = s.cur
+        if self.level == "inner":
+            self.pool = me.pool if me.pool is not None else 0
+            s.point("executor:new")
+            rt.on_inner_executor(me, self)
+        else:
+            self.pool = None
+        rt.executors.append(self)
+        for i in range(max_workers):
+            w = s.spawn(f"{'O' if self.level == 'outer' else 'W'}{self.pool if self.pool is not None else ''}.{i}",
+                        lambda i=i: self._worker(i), role=self.level,
+                        pool=self.pool, widx=None,
+                        pred=lambda: bool(self.queue) or self.shutdown_flag)
+            w.local_index = i
+            self.workers.append(w)
+
+    def _worker(self, i):
+        rt, s = self.rt, self.rt.sched
+        me = s.cur
+        first = True
+        while True:
+            if not first:
+                s.point("queue:get", pred=lambda: bool(self.queue) or self.shutdown_flag)
+            first = False
+            if not self.queue:
+                return                      # shut down
+            fut, fn, args, kwargs = self.queue.popleft()
+            fut.state = "running"
+            self.busy += 1
+            me.npoints = 0
+            me.job = fut.idx
+            rt.on_dequeue(me, self, fut, args)
+            try:
+                v = fn(*args, **kwargs)
+                exc = None
+            except _Abort:
+                raise
+            except BaseException as e:  # noqa: BLE001
+                v, exc = None, e
+            s.point("future:set")
+            if exc is None:
+                fut.state, fut.value = "ok", v
+            else:
+                fut.state, fut.exc = "raised", exc
+            self.busy -= 1
+            me.job = None
+            rt.on_task_done(me, self, fut, exc is not None)
+
+    def submit(self, fn, *args, **kwargs):
+        s = self.rt.sched
+        if self.shutdown_flag:
+            raise RuntimeError("cannot schedule new futures after shutdown")
+        s.point("submit")
+        fut = CoFuture(self.rt, len(self.futures))
+        self.futures.append(fut)
+        self.queue.append((fut, fn, args, kwargs))
+        self.rt.on_submit(s.cur, self, fut)
+        return fut
+
+    def shutdown(self, wait=True, *, cancel_futures=False):
+        s = self.rt.sched
+        me = s.cur
+        s.point("shutdown")
+        first = not self.shutdown_flag
+        self.shutdown_flag = True
+        if cancel_futures:
+            while self.queue:
+                fut = self.queue.popleft()[0]
+                fut.state = "cancelled"
+        if first:
+            self.rt.on_shutdown(me, self, cancel_futures)
+        if wait:
+            s.point("join", pred=lambda: self.busy == 0 and not self.queue)
+            if first:
+                self.rt.on_joined(me, self)
+
+    def __enter__(self):
+        return self
+
+    def __exit__(self, et, ev, tb):
+        self.shutdown(wait=True)
+        return False
+
+
+class _Futures:
+    pass
+
+
+class Runtime:
+    """The fake `threading` and `concurrent.futures` seen by onnx_ir.external_data, plus the mapping of
+    what happens to model-level events (thread, code, task)."""
+
+    # event codes = C09.Model.ev_code
+    def __init__(self, sched, plan):
+        self.sched = sched
+        self.plan = plan                  # predicted configuration: pools, base worker index, sizes, ...
+        self.locks, self.conds, self.executors = [], [], []
+        self.budgets = []
+        self.obj_of_lock = {}
+        self.in_cb = []                   # threads currently inside the user callback
+        self.in_write = {}                # tensor object index -> threads inside tofile
+        self.cb_log = []                  # (index, thread name)
+        self.problems = []                # oracle observations
+        self.materialised = 0
+        self.max_materialised = 0
+        self.max_inflight = 0
+        self.serial_started = set()
+        self.inner_workers = {}           # pool -> next local index
+        self.observed_pools = {}          # pool -> ("parallel", k) | ("serial", 1)
+        sched.observe = self.observe
+        rt = self
+
+        class _Threading:
+            Lock = staticmethod(lambda: CoLock(rt))
+            Condition = staticmethod(lambda lock=None: CoCondition(rt))
+            local = _real_threading.local
+            RLock = staticmethod(lambda: CoLock(rt))
+        fut = _Futures()
+        fut.ThreadPoolExecutor = lambda max_workers=None, **kw: CoExecutor(rt, max_workers)
+        fut.as_completed = self.as_completed
+        import concurrent.futures as cf
+        fut.CancelledError = cf.CancelledError
+        conc = _Futures()
+        conc.futures = fut
+        self.threading, self.concurrent = _Threading, conc
+
+    # -- observation of the budget (counter at every step)
+    def observe(self):
+        if not self.budgets:
+            return (0, False)
+        b = self.budgets[-1]
+        inf, ov = b._in_flight, bool(b._oversized_active)
+        if inf > self.max_inflight:
+            self.max_inflight = inf
+        return (inf, ov)
+
+    # -- model thread ids
+    def _drv(self, th):
+        return ("D", th.pool if th.pool is not None else 0)
+
+    def _wrk(self, th):
+        if th.widx is None:
+            p = th.pool if th.pool is not None else 0
+            if th.role == "inner":
+                th.widx = self.plan["base"][p] + th.local_index
+            else:
+                th.widx = self.plan["base"][p]         # the shard driver itself runs the serial writer
+        return ("W", th.widx)
+
+    def _serial_task_start(self, th):
+        """serial writer: the for-loop picks the next tensor (a `dequeue` of the model's one-worker pool)"""
+        p = th.pool
+        if p not in self.serial_started:
+            self.serial_started.add(p)
+            self.observed_pools[p] = ("serial", 1)
+            for _ in range(self.plan["pool_sizes"][p]):
+                self.sched.emit(("D", p), 31)
+            self.sched.emit(("D", p), 32)
+            th.serial_next = 0
+        th.task = self.plan["pool_first"][p] + th.serial_next
+        th.serial_next += 1
+        th.npoints = 0
+        self.sched.emit(self._wrk(th), 1, th.task)
+
+    def _serial_task_end(self, th, exc):
+        self.sched.emit(self._wrk(th), 17 if exc else 16, th.task)
+        th.task = None
+
+    def _is_serial_thread(self, th):
+        return th.role == "outer" and not any(e.level == "inner" and e.pool == th.pool for e in self.executors)
+
+    # -- hooks
+    def on_lock(self, th, lock):
+        if lock.role == "cbin":
+            self.sched.emit(self._wrk(th), 2, th.task)
+        elif lock.role == "cbout":
+            if self._is_serial_thread(th) and th.task is None:
+                self._serial_task_start(th)
+            self.sched.emit(self._wrk(th), 3, th.task)
+        elif lock.role == "tensor":
+            self.sched.emit(self._wrk(th), 8, th.task)
+
+    def on_unlock(self, th, lock, exc):
+        if lock.role == "cbin":
+            self.sched.emit(self._wrk(th), 7, th.task)
+        elif lock.role == "cbout":
+            self.sched.emit(self._wrk(th), 6, th.task)
+            if exc and self._is_serial_thread(th):
+                self._serial_task_end(th, True)
+        elif lock.role == "tensor":
+            self.sched.emit(self._wrk(th), 15, th.task)
+            if self._is_serial_thread(th):
+                self._serial_task_end(th, exc)
+
+    def on_cond_sleep(self, th):
+        self.sched.emit(self._wrk(th), 11, th.task)
+
+    def on_cond_exit(self, th, kind, before, exc):
+        after = self.observe()
+        if kind == "acquire":
+            self.sched.emit(self._wrk(th), 10 if (after[1] and not before[1]) else 9, th.task)
+        elif kind == "release":
+            self.sched.emit(self._wrk(th), 14, th.task)
+
+    def on_inner_executor(self, th, ex):
+        self.observed_pools[ex.pool] = ("parallel", ex.k)
+        if th.role == "main":
+            th.pool = 0
+            self.sched.emit(("D", 0), 30)
+
+    def on_dequeue(self, th, ex, fut, args):
+        if ex.level == "outer":
+            th.pool = fut.idx
+            th.widx = None
+            th.task = None
+            self.sched.emit(("D", fut.idx), 30)
+        else:
+            th.task = self.plan["pool_first"][ex.pool] + fut.idx
+            self.sched.emit(self._wrk(th), 1, th.task)
+
+    def on_task_done(self, th, ex, fut, raised):
+        if ex.level == "outer":
+            p = fut.idx
+            if p in self.serial_started:
+                self.sched.emit(("D", p), 33 if raised else 34)
+                self.sched.emit(("D", p), 35)
+        else:
+            self.sched.emit(self._wrk(th), 17 if raised else 16, th.task)
+            th.task = None
+
+    def on_submit(self, th, ex, fut):
+        if ex.level == "inner":
+            self.sched.emit(("D", ex.pool), 31)
+
+    def on_shutdown(self, th, ex, cancel):
+        if ex.level == "inner":
+            self.sched.emit(("D", ex.pool), 33 if cancel else 34)
+
+    def on_joined(self, th, ex):
+        if ex.level == "inner":
+            self.sched.emit(("D", ex.pool), 35)
+
+    def as_completed(self, fs, timeout=None):
+        s = self.sched
+        fs = list(fs)
+        me = s.cur
+        s.point("as_completed:start")
+        p = me.pool if me.pool is not None else 0
+        s.emit(("D", p), 32)
+        pending = list(fs)
+        while pending:
+            s.point("as_completed:next", pred=lambda: any(f.done() for f in pending))
+            ready = [f for f in pending if f.done()]
+            f = ready[s.pick(len(ready))]
+            pending.remove(f)
+            yield f
+
+
+# --------------------------------------------------------------------------- implementation side
+
+import contextlib
+import json
+import random
+import shutil
+import time
+
+import numpy as np
+
+_CLASSES = {}
+
+
+def _classes():
+    if _CLASSES:
+        return _CLASSES
+    import onnx_ir as ir
+
+    class HookTensor(ir.Tensor):
+        def tofile(self, file):
+            h = getattr(self, "_c09_hook", None)
+            if h is None:
+                if getattr(self, "_c09_wfail", False):
+                    raise RuntimeError("injected write failure")
+                return super().tofile(file)
+            return h(self, lambda: ir.Tensor.tofile(self, file))
+
+    class HookExternalTensor(ir.ExternalTensor):
+        def tofile(self, file):
+            h = getattr(self, "_c09_hook", None)
+            if h is None:
+                if getattr(self, "_c09_wfail", False):
+                    raise RuntimeError("injected write failure")
+                return super().tofile(file)
+            return h(self, lambda: ir.ExternalTensor.tofile(self, file))
+
+    _CLASSES.update(mem=HookTensor, ext=HookExternalTensor)
+    return _CLASSES
+
+
+def tensor_bytes(hc) -> list[bytes]:
+    """bytes per tensor index (tensors sharing an object share bytes)"""
+    rng = random.Random(hc["tseed"])
+    by_obj = {}
+    out = []
+    for i, t in enumerate(hc["tensors"]):
+        if t["obj"] not in by_obj:
+            by_obj[t["obj"]] = bytes(rng.randrange(1, 256) for _ in range(t["len"]))
+        out.append(by_obj[t["obj"]])
+    return out
+
+
+def build_model(hc, workdir, with_failures=True):
+    """A model whose initializers w0..wn-1 hold the configured tensors.  Returns (model, objects by obj id)."""
+    import onnx_ir as ir
+    cls = _classes()
+    os.makedirs(workdir, exist_ok=True)
+    data = tensor_bytes(hc)
+    objs = {}
+    inits = []
+    for i, t in enumerate(hc["tensors"]):
+        o = t["obj"]
+        if o not in objs:
+            arr = np.frombuffer(data[i], dtype=np.uint8).copy()
+            if t["ext"]:
+                fn = f"src_{o}.bin"
+                pre = o % 3
+                with open(os.path.join(workdir, fn), "wb") as f:
+                    f.write(b"\xee" * pre + data[i] + b"\xdd\xdd")
+                obj = cls["ext"](fn, pre, len(data[i]), ir.DataType.UINT8, shape=ir.Shape([len(data[i])]),
+                                 name=f"w{i}", base_dir=workdir)
+            else:
+                obj = cls["mem"](arr, name=f"w{i}")
+            obj._c09_obj = o
+            obj._c09_wfail = bool(t["wfail"]) and with_failures
+            obj._c09_need = min(t["len"], hc["chunk"]) if (t["ext"] and hc.get("chunk")) else t["len"]
+            objs[o] = obj
+        inits.append(ir.Value(name=f"w{i}", const_value=objs[o], type=ir.TensorType(ir.DataType.UINT8),
+                              shape=ir.Shape([t["len"]])))
+    x = ir.Value(name="x", type=ir.TensorType(ir.DataType.FLOAT), shape=ir.Shape([1]))
+    y = ir.Value(name="y", type=ir.TensorType(ir.DataType.FLOAT), shape=ir.Shape([1]))
+    g = ir.Graph([x], [y], nodes=[ir.Node("", "Identity", [x], outputs=[y], name="n")], initializers=inits,
+                 name="g", opset_imports={"": 20})
+    return ir.Model(g, ir_version=10), objs
+
+
+def _list_files(outdir) -> dict:
+    out = {}
+    for root, dirs, fs in os.walk(outdir):
+        for fn in fs:
+            p = os.path.join(root, fn)
+            with open(p, "rb") as f:
+                out[os.path.relpath(p, outdir)] = f.read()
+        for d in dirs:
+            out.setdefault("__dirs__", []).append(os.path.relpath(os.path.join(root, d), outdir))
+    return out
+
+
+@contextlib.contextmanager
+def _chunk(hc):
+    from onnx_ir import _core
+    old = _core._EXTERNAL_TENSOR_COPY_CHUNK_SIZE
+    if hc.get("chunk"):
+        _core._EXTERNAL_TENSOR_COPY_CHUNK_SIZE = hc["chunk"]
+    try:
+        yield
+    finally:
+        _core._EXTERNAL_TENSOR_COPY_CHUNK_SIZE = old
+
+
+def reference(hc, workdir) -> dict:
+    """The serial save (max_workers=None, real modules, no failures): files, layout, and the plan that
+    names pools / workers the way the model does."""
+    from onnx_ir import external_data as ed
+    wd = os.path.join(workdir, "ref")
+    model, _ = build_model(hc, wd, with_failures=False)
+    out = os.path.join(wd, "out")
+    os.makedirs(out)
+    layout = {}
+
+    def cb(tensor, info):
+        layout[info.index] = (info.filename, info.offset)
+    with _chunk(hc):
+        ed.unload_from_model(model, out, "m.data", max_shard_size_bytes=hc["max_shard"], callback=cb)
+    files = _list_files(out)
+    shutil.rmtree(wd, ignore_errors=True)
+    n = len(hc["tensors"])
+    assert sorted(layout) == list(range(n)), layout
+    names = []
+    for i in range(n):
+        if layout[i][0] not in names:
+            names.append(layout[i][0])
+    pool_of = [names.index(layout[i][0]) for i in range(n)]
+    sizes = [pool_of.count(p) for p in range(len(names))]
+    first = [pool_of.index(p) for p in range(len(names))]
+    mw = hc["max_workers"]
+    if len(names) > 1:
+        sw = min(mw, len(names))
+        wps = max(1, (mw - sw) // sw)
+        serial = [not (wps > 1 and sizes[p] > 1) for p in range(len(names))]
+        k = [1 if serial[p] else wps for p in range(len(names))]
+        outer, limit = True, sw
+    else:
+        serial, k, outer, limit = [False], [mw], False, 1
+    base = [sum(k[:p]) for p in range(len(names))]
+    return {"files": files, "names": names, "pool_of": pool_of, "offsets": [layout[i][1] for i in range(n)],
+            "pool_sizes": sizes, "pool_first": first, "serial": serial, "k": k, "base": base, "outer": outer,
+            "limit": limit, "nw": sum(k)}
+
+
+def run_coop(hc, plan, workdir, chooser, pickfn=None, keyfn=None, max_steps=4000, timeout=60.0) -> dict:
+    """One cooperative run of the real unload_from_model under the given scheduler policy."""
+    from onnx_ir import _core
+    from onnx_ir import external_data as ed
+    wd = os.path.join(workdir, "run")
+    shutil.rmtree(wd, ignore_errors=True)
+    model, objs = build_model(hc, wd)
+    out = os.path.join(wd, "out")
+    os.makedirs(out)
+    sched = Sched(chooser, max_steps)
+    sched.pickfn, sched.keyfn = pickfn, keyfn
+    rt = Runtime(sched, plan)
+    result = {}
+    need_of = {o: t._c09_need for o, t in objs.items()}
+
+    def hook(tensor, do):
+        me = sched.cur
+        o = tensor._c09_obj
+        users = rt.in_write.setdefault(o, [])
+        if users:
+            rt.problems.append(f"tensor object {o} evaluated by {me.name} while {users[0].name} is still using it")
+        users.append(me)
+        rt.materialised += need_of[o]
+        rt.max_materialised = max(rt.max_materialised, rt.materialised)
+        try:
+            sched.point("write")
+            sched.emit(rt._wrk(me), 13 if tensor._c09_wfail else 12, me.task)
+            if tensor._c09_wfail:
+                raise RuntimeError("injected write failure")
+            do()
+        finally:
+            users.remove(me)
+            rt.materialised -= need_of[o]
+    for t in objs.values():
+        t._c09_hook = hook
+
+    cbfail = {i for i, t in enumerate(hc["tensors"]) if t["cbfail"]}
+
+    def callback(tensor, info):
+        me = sched.cur
+        if rt.in_cb:
+            rt.problems.append(f"callback for index {info.index} entered by {me.name} while {rt.in_cb[0].name} "
+                               "is inside the callback")
+        rt.in_cb.append(me)
+        try:
+            sched.point("callback")
+            rt.cb_log.append((info.index, me.name))
+            sched.emit(rt._wrk(me), 5 if info.index in cbfail else 4, me.task)
+            if info.index in cbfail:
+                raise RuntimeError("injected callback failure")
+        finally:
+            rt.in_cb.remove(me)
+
+    orig_budget = ed._ByteBudget
+
+    class Budget(orig_budget):
+        def __init__(self, capacity):
+            super().__init__(capacity)
+            rt.budgets.append(self)
+
+    def main():
+        me = sched.cur
+        try:
+            ed.unload_from_model(model, out, "m.data", max_shard_size_bytes=hc["max_shard"], callback=callback,
+                                 max_workers=hc["max_workers"], max_in_flight_bytes=hc["cap"])
+            result["outcome"] = "ok"
+        except _Abort:
+            raise
+        except BaseException as e:  # noqa: BLE001
+            result["outcome"] = "raise:" + type(e).__name__
+            result["message"] = str(e)[:200]
+        # the moment the caller gets control back
+        busy = [w.name for ex in rt.executors for w in ex.workers if getattr(w, "job", None) is not None]
+        if busy:
+            rt.problems.append(f"save returned control ({result['outcome']}) while workers {busy} are still running")
+        inf, ov = rt.observe()
+        if rt.budgets and (inf != 0 or ov):
+            rt.problems.append(f"save returned control ({result['outcome']}) with budget in_flight={inf} oversized={ov}")
+        if rt.in_cb or any(rt.in_write.values()):
+            rt.problems.append("save returned control while a callback / tensor write is in progress")
+        sched.emit(("M",), 40)
+
+    saved = (ed.threading, ed.concurrent, ed._ByteBudget)
+    ed.threading, ed.concurrent, ed._ByteBudget = rt.threading, rt.concurrent, Budget
+    t0 = time.time()
+    try:
+        with _chunk(hc):
+            sched.spawn("M", main, role="main")
+            sched.start()
+            finished = sched.done.wait(timeout)
+    finally:
+        ed.threading, ed.concurrent, ed._ByteBudget = saved
+    sched._seal() if sched.outcome == "finished" else None
+    for t in objs.values():
+        t._c09_hook = None
+    if not finished:
+        sched.dead = True
+        sched.outcome = ("timeout", timeout)
+    res = {"sched_outcome": sched.outcome, "outcome": result.get("outcome"), "message": result.get("message"),
+           "steps": sched.steps, "choices": sched.choices, "picks": sched.picks, "keys": sched.keys,
+           "enabled_counts": sched.enabled_counts, "problems": rt.problems, "cb_log": rt.cb_log,
+           "max_materialised": rt.max_materialised, "max_inflight": rt.max_inflight,
+           "observed_pools": rt.observed_pools, "nbudgets": len(rt.budgets),
+           "files": _list_files(out) if sched.outcome == "finished" else None,
+           "threads": [t.name for t in sched.threads], "wall": time.time() - t0}
+    shutil.rmtree(wd, ignore_errors=True)
+    return res
+
+
+def random_chooser(rng):
+    return lambda enabled, s: enabled[rng.randrange(len(enabled))]
+
+
+def replay_chooser(choices, fallback=None):
+    it = iter(choices)
+
+    def ch(enabled, s):
+        i = next(it, None)
+        if i is None or i >= len(enabled):
+            return fallback(enabled, s) if fallback else enabled[0]
+        return enabled[i]
+    return ch
+
+
+# --------------------------------------------------------------------------- case files (model run inside Coq)
+
+from harness.common import cZ, cbool, clist  # noqa: E402
+
+CASE_HEADER = """From Coq Require Import ZArith List Bool.
+From IRV Require Import Base.Exn Gen.C09Gen C07.Model C09.Model.
+Import ListNotations.
+Close Scope Z_scope.
+Open Scope nat_scope.
+"""
+REAL_CHUNK = 1024 * 1024
+
+
+def cfg_term(hc, plan) -> str:
+    data = tensor_bytes(hc)
+    tasks = []
+    for i, t in enumerate(hc["tensors"]):
+        tasks.append(f"mkTask {plan['pool_of'][i]} {t['obj']} {plan['offsets'][i]} "
+                     f"{clist(cZ(b) for b in data[i])} {cbool(t['ext'])} {cbool(t['cbfail'])} {cbool(t['wfail'])}")
+    wpool = [p for p, k in enumerate(plan["k"]) for _ in range(k)]
+    return (f"(mkCfg {clist(tasks)} {clist(cbool(b) for b in plan['serial'])} {clist(str(p) for p in wpool)} "
+            f"{cZ(hc['cap'])} {cZ(hc.get('chunk') or REAL_CHUNK)} {cbool(plan['outer'])} {plan['limit']})")
+
+
+def _thread_term(th) -> str:
+    if th[0] == "M":
+        return "TMain"
+    return f"(TDrv {th[1]})" if th[0] == "D" else f"(TWrk {th[1]})"
+
+
+def trace_term(steps) -> str:
+    return clist(f"({_thread_term(th)}, {code}, {task or 0}, {cZ(obs[0])}, {cbool(obs[1])})"
+                 for th, code, task, obs in steps)
+
+
+def case_term(hc, plan, res) -> str:
+    raised = res["outcome"] != "ok"
+    files = [] if raised else [clist(cZ(b) for b in res["files"].get(n, b"")) for n in plan["names"]]
+    return (f"({cfg_term(hc, plan)},\n   {trace_term(res['steps'])},\n   {cbool(raised)}, "
+            f"{clist(str(i) for i, _ in res['cb_log'])}, {clist(files)})")
+
+
+def cases_text(cases) -> str:
+    ty = "(cfg * list ostep * bool * list nat * list (list Z))%type"
+    return (CASE_HEADER + f"Definition cases : list {ty} :=\n  " + ";\n  ".join(["["] and []) +
+            "[" + ";\n  ".join(case_term(*c) for c in cases) + "].\n"
+            f"Definition agree (x : {ty}) : bool := let '(c, tr, r, cbs, fs) := x in run_agrees c tr r cbs fs.\n"
+            "Eval vm_compute in (failing agree cases).\n")
+
+
+def accepted_prefix(ck, hc, plan, res) -> int:
+    """how many observed steps the model accepts (diagnostic for a rejected trace)"""
+    text = (CASE_HEADER + f"Eval vm_compute in (accepted {cfg_term(hc, plan)} init {trace_term(res['steps'])}).\n")
+    rc, out = ck.coq_eval(text, "diag")
+    import re
+    m = re.search(r"=\s*(\d+)", out)
+    return int(m.group(1)) if m else -1
